@@ -197,6 +197,15 @@ def gen_ff(g, nblocks=None, uniform_nrexcl=True, itp_p=0.2, multires_p=0.15, rem
                 links.append({"resnames": [X["name"]], "sections": {
                     "angles": [{"atoms": [cap, first, last], "params": ["1", "105", "25"], "meta": {}}],
                     "bonds": [{"atoms": [first, last], "params": ["6", "0.52", "150"], "meta": {}}]}})
+    for X in blocks:
+        if len(X["atoms"]) == 4 and not X.get("itp") and not X["inter"]["dihedrals"] and g.random() < 0.25:
+            # a proper and an improper dihedral over the same four atoms of a residue, each defined by a link of its
+            # own (separately ordered definitions)
+            nm = [a["name"] for a in X["atoms"]]
+            links.append({"resnames": [X["name"]], "sections": {
+                "dihedrals": [{"atoms": nm, "params": ["1", "180", "2.5", "2"], "meta": {}}]}})
+            links.append({"resnames": [X["name"]], "sections": {
+                "impropers": [{"atoms": nm, "params": ["2", "0", "50"], "meta": {}}]}})
     if links and g.random() < 0.3:
         # a message of the force field attached to a link (logged when the link applies): info, warning or error level
         l = g.choice([x for x in links if not x.get("removal_link")] or links)
